@@ -5,7 +5,7 @@ for every exclusive method, at most one of its call sites is active (caller's re
 spec-level condition of the site), for all inputs and register values; and every pair of transactions that
 the spec-level oracle finds able to double-activate an exclusive method never runs together."""
 
-from contracts import corelib
+from contracts import corelib, schedfn, ctrlpath
 
 PROPERTY = "C01"
 LEVEL = "proof"
@@ -14,10 +14,14 @@ TECHNIQUE = "contracts on the elaborated netlist of generated designs (real mana
 
 
 def configs(tier):
-    return corelib.design_configs(tier, schedulers=("eager", "rr"))
+    return corelib.design_configs(tier, schedulers=("eager", "rr")) + schedfn.configs(tier) + ctrlpath.configs(tier)
 
 
 def run(cfg, ctx):
+    if cfg.get("kind") == "schedfn":
+        return schedfn.run(PROPERTY, cfg, ctx)
+    if cfg.get("kind") == "ctrlpath":
+        return ctrlpath.run(PROPERTY, cfg, ctx)
     corelib.run_core(PROPERTY, cfg, ctx)
 
 
@@ -56,7 +60,21 @@ def _patch_scheduler_range():
     B.eager_deterministic_cc_scheduler = sched
 
 
+def _patch_exclusive_with_module():
+    import transactron.core.tmodule as TM
+
+    def bad(self, other):
+        for a, b in zip(self.path, other.path):
+            if a != b:
+                return a.par == b.par
+        return False
+
+    TM.CtrlPath.exclusive_with = bad
+
+
 CANARIES = [
+    {"name": "exclusive_with_function_ignores_par", "cfg": {"kind": "ctrlpath", "fn": "ctrlpath", "len": [2, 2]}, "patch": _patch_exclusive_with, "expect": r"CtrlPath\.exclusive_with.*result_equals_spec"},
+    {"name": "exclusive_with_function_ignores_module", "cfg": {"kind": "ctrlpath", "fn": "call_paths", "len": [1, 1], "inner": [0, 1, 2]}, "patch": _patch_exclusive_with_module, "expect": r"call_paths_exclusive.*result_equals_spec"},
     {"name": "exclusive_with_ignores_par", "cfg": {"design": "disabled_calls", "scheduler": "eager"}, "patch": _patch_exclusive_with, "expect": r"at_most_one|never_run_together", "error_ok": False},
     {"name": "scheduler_skips_nearest_conflict", "cfg": {"design": "two_callers", "scheduler": "eager"}, "patch": _patch_scheduler_range, "expect": r"at_most_one|never_run_together"},
 ]
